@@ -432,6 +432,21 @@ func (c *Conn) WaitReply(id uint32) (Frame, bool) {
 	return c.ReplyFor(id)
 }
 
+// PollReply waits for the reply with the given id by sleeping in 1ms steps (virtual
+// time inside a bubble) for at most max. Unlike WaitReply it may be used from several
+// goroutines at once (synctest.Wait cannot).
+func (c *Conn) PollReply(id uint32, max time.Duration) (Frame, bool) {
+	for waited := time.Duration(0); ; waited += time.Millisecond {
+		if f, ok := c.ReplyFor(id); ok {
+			return f, true
+		}
+		if closed, _, _ := c.T.Closed(); closed || waited >= max {
+			return c.ReplyFor(id)
+		}
+		time.Sleep(time.Millisecond)
+	}
+}
+
 // ReplyFor returns the reply frame with the given command id, if written.
 func (c *Conn) ReplyFor(id uint32) (Frame, bool) {
 	for _, f := range c.T.Frames() {
